@@ -350,6 +350,8 @@ class EArray(Engine):
                 return None
             if isinstance(j, list):
                 return None
+            if self.dt.kind == 'bytes' and _isint(j) and j > 4096:
+                return None         # bytes(n) allocates n bytes: not executed
             return j
         except Exception:
             return None
@@ -371,8 +373,9 @@ class EArray(Engine):
 
     # -- signatures / incidents ----------------------------------------------------------------------------
     def tb(self, *tags):
+        """Trigger tag: the given narrow tags, else 'trailing-bits' when the Array has any, else '-'."""
         t = [x for x in tags if x and x != '-']
-        if self.trail:
+        if not t and self.trail:
             t.append('trailing-bits')
         return '+'.join(t) if t else '-'
 
@@ -416,8 +419,13 @@ class EArray(Engine):
         return -1
 
     def _verify(self, force=False):
-        """Oracle after every event.  On any incident the Array is rebuilt from the model."""
+        """Oracle after every event.  On any incident the Array is rebuilt from the model.  A discrepancy of the
+        data is attributed to the event (its op and trigger); discrepancies of the read-only observers
+        (len, itemsize/dtype, tolist, trailing_bits) on CORRECT data are attributed to the observer."""
         a = self.a
+        if self._incs:
+            self._resync()
+            return
         want = self.bits()
         real = self._real_bits()
         w = self.dt.w
@@ -426,22 +434,28 @@ class EArray(Engine):
         elif real != want:
             self.fail('content-mismatch', got=(real or '')[:300], want=want[:300], got_len=len(real or ''), want_len=len(want))
         else:
+            after = self._op
+            fam = 'trailing-bits' if self.trail else '-'
             st, n = call(len, a)
             if st != 'ok' or n != len(self.items):
-                self.fail('len-mismatch', got=kernel.canon(n), want=len(self.items))
+                self._op, self._trig = 'oracle:len', fam
+                self.fail('wrong-return', got=kernel.canon(n), want=len(self.items), after=after)
             st, isz = call(lambda: a.itemsize)
             st2, dd = call(lambda: (a.dtype.name, a.dtype.bitlength))
             if st != 'ok' or isz != w or st2 != 'ok' or dd != self.dt.ident:
-                self.fail('dtype-mismatch', itemsize=kernel.canon(isz), got=kernel.canon(dd), want=list(self.dt.ident))
+                self._op, self._trig = 'oracle:dtype', fam
+                self.fail('wrong-return', itemsize=kernel.canon(isz), got=kernel.canon(dd), want=list(self.dt.ident), after=after)
             key = (self.dt.key, want)
             if force or self._verified != key:
                 st, tl = call(a.tolist)
                 wl = self.vals()
                 if st != 'ok' or not same_list(tl, wl):
-                    self.fail('tolist-mismatch', got=kernel.canon(tl), want=kernel.canon(wl))
+                    self._op, self._trig = 'oracle:tolist', fam
+                    self.fail('wrong-return', got=kernel.canon(tl), want=kernel.canon(wl), after=after)
                 st, t = call(lambda: kernel.safe_bin(a.trailing_bits))
                 if st != 'ok' or t != self.trail:
-                    self.fail('trailing_bits-mismatch', got=kernel.canon(t), want=self.trail)
+                    self._op, self._trig = 'oracle:trailing_bits', fam
+                    self.fail('wrong-return', got=kernel.canon(t), want=self.trail, after=after)
                 self._verified = key
         if self._incs:
             self._resync()
@@ -466,10 +480,19 @@ class EArray(Engine):
         obs['n'] = len(self.items)
         obs['t'] = len(self.trail)
         w = self.dt.w
-        self.state(self.dt.kind, 0 if w < 8 else 1 if w == 8 else 2 if w < 64 else 3 if w == 64 else 4,
-                   min(len(self.items), 4), bool(self.trail))
-        self.transition(k, obs.get('st', '-'), obs.get('e', '-'), t0, self.dt.cls, min(n0, 2))
+        self._reach(True, (self.dt.kind, 0 if w < 8 else 1 if w == 8 else 2 if w < 64 else 3 if w == 64 else 4,
+                           min(len(self.items), 4), bool(self.trail)))
+        self._reach(False, (k, obs.get('st', '-'), obs.get('e', '-'), t0, self.dt.cls, min(n0, 2)))
         return obs, incs
+
+    _REACH = {}
+
+    def _reach(self, is_state, t):
+        """self.state / self.transition with the JSON form memoised (same strings, a fraction of the cost)."""
+        j = self._REACH.get(t)
+        if j is None:
+            j = self._REACH[t] = kernel.jdump(t)
+        (self.rec.states if is_state else self.rec.transitions).add(j)
 
     def simplify(self, ev):
         return kernel.simplify_generic(ev)
@@ -754,7 +777,7 @@ class EArray(Engine):
         if i < -n:
             self._trig = 'negative-index-below-start'
         elif i < 0:
-            self._trig = self.tb('negative-index')
+            self._trig = 'negative-index+trailing-bits' if self.trail else 'negative-index'
         else:
             self._trig = self.tb('beyond-end' if i > n else '-')
         est, e = self.enc(self.dt, v)
@@ -1245,6 +1268,8 @@ class EArray(Engine):
             return {'skip': 'unknown dtype'}
         d2 = TABLE[key]
         self._op, self._trig = 'astype', self.tb('to-' + d2.cls + '-from-' + self.dt.cls)
+        if d2.kind == 'bytes' and any(_isint(x) and x > 4096 for x in self.vals()):
+            return {'skip': 'bytes(n) allocates n bytes'}
         encs, bad, excs = self._encode_all(self.vals(), d2)
         st, r = call(self.a.astype, key)
         if bad is not None:
@@ -1324,6 +1349,7 @@ class EArray(Engine):
             if self._real_bits() != self.bits():
                 # the statement: a failing in-place operator leaves the Array unchanged
                 self.fail('not-atomic', got=(self._real_bits() or '')[:300], first_bad=errs[0][0], **detail)
+                self._resync()
             return
         if not self.want_ok(st, r, **detail):
             return
@@ -1384,7 +1410,8 @@ class EArray(Engine):
             return self._bitwise(ev, opname, rhs, inplace, reflected=False)
         if 'bw' in rhs:
             return {'skip': 'bitstring operand for a non-bitwise operator'}
-        self._op = ('iop:' if inplace else 'op:') + opname
+        # == and != share one call site (Array._eq_ne): one op name, so that one defect has one signature
+        self._op = ('iop:' if inplace else 'op:') + ('eq/ne' if opname in ('eq', 'ne') else opname)
         pyop = PYOP[opname]
         fn = IOP[opname] if inplace else pyop
         xs = self.vals()
@@ -1492,7 +1519,10 @@ class EArray(Engine):
         return self._obs(st, r)
 
     def _array_operand(self, opname, spec, inplace, pyop, fn, xs):
-        o, d2, its, tr = self._other({'dt2': spec.get('dt'), 'bin': spec.get('bin', '')})
+        if spec.get('self'):
+            o, d2, its, tr = self.a, self.dt, list(self.items), self.trail      # a <op> a
+        else:
+            o, d2, its, tr = self._other({'dt2': spec.get('dt'), 'bin': spec.get('bin', '')})
         ys = [self.dec(d2, c) for c in its]
         n = len(xs)
         d1 = self.dt
@@ -1506,6 +1536,20 @@ class EArray(Engine):
             tags.append('nonnumeric-dtype')
         if len(ys) != n:
             tags.append('length-mismatch')
+        if not nonnum and opname not in CMP:
+            if (d1.cls == 'float') != (d2.cls == 'float'):
+                rule = 'float-beats-int'
+            elif d1.cls == 'int' and d1.signed != d2.signed:
+                rule = 'signed-beats-unsigned'
+            elif d1.w != d2.w:
+                rule = 'longer'
+            else:
+                rule = 'same-dtype' if same_id else 'tie-first'
+            tags.append('array-operand:' + rule)
+            if rule != 'same-dtype' and len(ys) == n:
+                self.probe('promote:' + rule)
+        elif not tags:
+            tags.append('array-operand')
         self._trig = self.tb(*tags)
         if len(ys) == n and not nonnum and self._heavy(opname, xs, ys):
             return {'skip': 'heavy'}
@@ -1525,14 +1569,6 @@ class EArray(Engine):
             return self._obs(st, r)
         else:
             dres = promote(d1, d2)
-            if (d1.cls == 'float') != (d2.cls == 'float'):
-                self.probe('promote:float-beats-int')
-            elif d1.cls == 'int' and d1.signed != d2.signed:
-                self.probe('promote:signed-beats-unsigned')
-            elif d1.w != d2.w:
-                self.probe('promote:longer')
-            elif not same_id:
-                self.probe('promote:tie-first')
         out, errs = self._map(pyop, xs, ys, dres)
         if opname in CMP and nonnum and st == 'exc' and exc_is(r, 'ValueError', 'TypeError'):
             return self._obs(st, r)     # comparison of non-numerical Arrays: refusing is as documented as mapping
@@ -1561,3 +1597,535 @@ class EArray(Engine):
         out, errs = self._map(pyop, xs, ys, TABLE['bool'])
         self._settle_result(st, r, out, errs, TABLE['bool'], detail)
         return self._obs(st, r)
+
+    # =================================================================================================
+    # generation (the only place, with config, that draws randomness)
+    # =================================================================================================
+    BASE_W = (('len', 1), ('get', 4), ('getslice', 4), ('set', 5), ('setslice', 5), ('setslice_f', 1.5), ('del', 2),
+              ('delslice', 3), ('append', 4), ('extend', 5), ('extend_f', 1.5), ('insert', 5), ('pop', 4), ('reverse', 2),
+              ('count', 3), ('contains', 1), ('tolist', 1), ('iter', 1.5), ('iter_start', 1), ('iter_next', 2.5),
+              ('equals', 3), ('copy', 2), ('set_dtype', 3), ('set_data', 2), ('props', 1), ('op', 8), ('iop', 6),
+              ('iop_unfit', 2.5), ('rop', 3), ('unary', 2), ('tobytes', 1), ('tofile', 1.5), ('fromfile', 2.5),
+              ('astype', 2), ('byteswap', 1), ('cache_clear', 2))
+    FOCUS = {'list': ('get', 'set', 'del', 'append', 'extend', 'insert', 'pop', 'reverse', 'count', 'iter_next'),
+             'slices': ('getslice', 'setslice', 'setslice_f', 'delslice'),
+             'ops': ('op', 'iop', 'iop_unfit', 'rop', 'unary'),
+             'io': ('tofile', 'fromfile', 'tobytes', 'extend'),
+             'dtype': ('set_dtype', 'set_data', 'astype', 'equals', 'cache_clear'),
+             'faults': ('extend_f', 'setslice_f', 'iop_unfit', 'fromfile', 'cache_clear', 'set_dtype')}
+
+    def gen(self, g):
+        if self.queue:
+            return self.queue.pop(0)
+        boost = self.FOCUS.get(self.focus, ())
+        pairs = [(k, w * (4 if k in boost else 1)) for k, w in self.BASE_W]
+        n = len(self.items)
+        if n > 10:
+            pairs += [('delslice', 25), ('pop', 10), ('set_data', 10)]
+        for _ in range(30):
+            k = g.wpick(pairs)
+            ev = getattr(self, 'g_' + k, lambda g_: {'k': k})(g)
+            if ev is not None:
+                return ev
+        return {'k': 'len'}
+
+    # -- values ------------------------------------------------------------------------------------------
+    def gval(self, g, d=None, fit=True):
+        """A JSON-form value for dtype d: fitting (boundary biased) or not."""
+        d = d or self.dt
+        w, kind = d.w, d.kind
+        r = g.r
+        if not fit:
+            if kind == 'u':
+                return g.pick([-1, 2 ** w, 2 ** w + r.getrandbits(4), -2 ** w])
+            if kind == 'i':
+                return g.pick([2 ** (w - 1), -2 ** (w - 1) - 1, 2 ** w])
+            if kind == 'bool':
+                return g.pick([2, -1, 'x'])
+            if d.cls == 'float':
+                return g.pick(['x', 10 ** 400, {'b': '00'}])
+            if kind == 'hex':
+                return g.pick(['g' * (w // 4), 'a' * (w // 4 + 1), 'a' * (w // 4 - 1), 5])
+            if kind == 'bin':
+                return g.pick(['2' * w, '1' * (w + 1), '1' * (w - 1), 3])
+            if kind == 'oct':
+                return g.pick(['8' * (w // 3), '7' * (w // 3 + 1), '7' * (w // 3 - 1), 3])
+            if kind == 'bytes':
+                return {'b': '41' * g.pick([w // 8 + 1, w // 8 - 1])}
+            return {'bits': g.bits(g.pick([w + 1, w - 1]))}
+        if kind == 'u':
+            return g.pick([0, 1, 2 ** w - 1, 2 ** (w - 1), r.getrandbits(w), r.getrandbits(w), r.getrandbits(min(w, 4))])
+        if kind == 'i':
+            return g.pick([0, 1, -1, 2 ** (w - 1) - 1, -2 ** (w - 1), r.getrandbits(w) - 2 ** (w - 1), r.randint(-3, 3) if w > 2 else 0])
+        if kind == 'bool':
+            return g.pick([True, False, 0, 1])
+        if d.cls == 'float':
+            x = g.pick([0.0, -0.0, 1.0, -1.5, 0.5, 2.0, 3.0, 0.1, 1e-3, 448.0, 65504.0, 1e5, float('inf'), float('-inf'),
+                        float('nan'), 3, -7, round(r.uniform(-100, 100), 3), round(r.uniform(-2, 2), 4), r.random() * 1e-6])
+            return jval(x)
+        if kind == 'hex':
+            s = ''.join(r.choice('0123456789abcdef') for _ in range(w // 4))
+            return s.upper() if g.chance(0.1) else s
+        if kind == 'bin':
+            return g.bits(w)
+        if kind == 'oct':
+            return ''.join(r.choice('01234567') for _ in range(w // 3))
+        if kind == 'bytes':
+            return {'b': bytes(r.getrandbits(8) for _ in range(w // 8)).hex()}
+        return {g.pick(['bits', 'bits', 'bs']): g.bits(w)}
+
+    def gvals(self, g, k, bad_at=None):
+        return [self.gval(g, fit=(i != bad_at)) for i in range(k)]
+
+    def gexisting(self, g):
+        """An existing item (as a JSON value), else a fresh one."""
+        if self.items and g.chance(0.6):
+            return jval(self.dec(self.dt, g.pick(self.items)))
+        return self.gval(g)
+
+    def gother(self, g, key, n):
+        d2 = TABLE[key]
+        bits = g.bits(max(n, 0) * d2.w)
+        return bits
+
+    # -- events ------------------------------------------------------------------------------------------
+    def g_get(self, g):
+        return {'k': 'get', 'i': g.pos(len(self.items))}
+
+    def _gslice(self, g):
+        n = len(self.items)
+        return {'a': g.opt_pos(n), 'b': g.opt_pos(n), 'c': g.step()}
+
+    def g_getslice(self, g):
+        return dict(self._gslice(g), k='getslice')
+
+    def g_set(self, g):
+        return {'k': 'set', 'i': g.pos(len(self.items)), 'v': self.gval(g, fit=not g.chance(0.12))}
+
+    def g_setslice(self, g, faulty=False):
+        ev = self._gslice(g)
+        n = len(self.items)
+        sl = slice(ev['a'], ev['b'], ev['c'])
+        k = len(range(*sl.indices(n)))
+        if ev['c'] in (None, 1):
+            cnt = g.pick([k, k, 0, 1, 2, 3, k + 1])
+        else:
+            cnt = k if g.chance(0.85) else g.pick([max(k - 1, 0), k + 1])
+        cnt = min(cnt, 8)
+        bad = g.int(0, cnt - 1) if (cnt and not faulty and g.chance(0.15)) else None
+        if bad is not None:
+            bad = g.pick([0, cnt // 2, cnt - 1])
+        if faulty:
+            ev.update(k='setslice_f', vals=self.gvals(g, cnt), fail_at=g.pick([0, cnt // 2, max(cnt - 1, 0), cnt]))
+            return ev
+        src = g.wpick([('list', 4), ('tuple', 1), ('gen', 2), ('array', 2)])
+        if src == 'array' and bad is None:
+            ev.update(k='setslice', src='array', bin=g.bits(cnt * self.dt.w))
+        else:
+            ev.update(k='setslice', src=src if src != 'array' else 'list', vals=self.gvals(g, cnt, bad))
+        return ev
+
+    def g_setslice_f(self, g):
+        return self.g_setslice(g, faulty=True)
+
+    def g_del(self, g):
+        return {'k': 'del', 'i': g.pos(len(self.items))}
+
+    def g_delslice(self, g):
+        return dict(self._gslice(g), k='delslice')
+
+    def g_append(self, g):
+        return {'k': 'append', 'v': self.gval(g, fit=not g.chance(0.12))}
+
+    def g_extend(self, g):
+        d = self.dt
+        src = g.wpick([('list', 4), ('tuple', 1), ('gen', 2), ('self', 1), ('array', 3), ('arrayarray', 2.5)])
+        cnt = g.pick([0, 1, 2, 3, 4])
+        if src == 'self':
+            return {'k': 'extend', 'src': 'self'} if len(self.items) <= 8 else None
+        if src == 'array':
+            r = g.r.random()
+            if r < 0.55:
+                key = d.key
+            elif r < 0.75:
+                same = [k for k in KEYS if TABLE[k].sem == d.sem and k != d.key]
+                key = g.pick(same) if same else d.key
+            else:
+                key = pick_dtype(g)
+            bits = self.gother(g, key, cnt)
+            if g.chance(0.1):
+                bits += g.bits(g.int(1, max(TABLE[key].w - 1, 1))) if TABLE[key].w > 1 else ''
+            return {'k': 'extend', 'src': 'array', 'dt2': key, 'bin': bits}
+        if src == 'arrayarray':
+            ne = 'le' if LE else 'be'
+            match = [tc for tc in AA_CODES if (aa_info(tc)[0], 'be' if aa_info(tc)[1] <= 8 else ne, aa_info(tc)[1]) == d.sem]
+            if self.avoid:
+                match = [tc for tc in match if array.array(tc).itemsize == struct.calcsize('=' + tc)]
+            odd = [c for c in 'lL' if array.array(c).itemsize != struct.calcsize('=' + c) and aa_info(c)[0] == d.kind]
+            if odd and not self.avoid and d.sem == (d.kind, ne, 32) and g.chance(0.35):
+                tc = g.pick(odd)        # platform size (8 bytes) differs from the struct standard size (4 bytes)
+            elif match and g.chance(0.8):
+                tc = g.pick(match)
+            else:
+                tc = g.pick([c for c in AA_CODES if not self.avoid or array.array(c).itemsize == struct.calcsize('=' + c)])
+            kind, w = aa_info(tc)
+            if kind == 'f':
+                vals = [jval(g.pick([0.0, 1.5, -2.25, 1e10, 0.1, float('inf')])) for _ in range(cnt)]
+            elif kind == 'u':
+                vals = [g.pick([0, 1, 2 ** w - 1, g.r.getrandbits(w)]) for _ in range(cnt)]
+            else:
+                vals = [g.pick([0, -1, 2 ** (w - 1) - 1, -2 ** (w - 1), g.r.getrandbits(w) - 2 ** (w - 1)]) for _ in range(cnt)]
+            return {'k': 'extend', 'src': 'arrayarray', 'tc': tc, 'vals': vals}
+        bad = g.pick([0, cnt // 2, cnt - 1]) if (cnt and g.chance(0.15)) else None
+        return {'k': 'extend', 'src': src, 'vals': self.gvals(g, cnt, bad)}
+
+    def g_extend_f(self, g):
+        cnt = g.pick([0, 1, 2, 3, 4])
+        return {'k': 'extend_f', 'vals': self.gvals(g, cnt), 'fail_at': g.pick([0, cnt // 2, max(cnt - 1, 0), cnt])}
+
+    def g_insert(self, g):
+        n = len(self.items)
+        for _ in range(10):
+            i = g.pos(n, slack=3)
+            if self.avoid and i < 0 and (i < -n or self.trail):
+                continue
+            return {'k': 'insert', 'i': i, 'v': self.gval(g, fit=not g.chance(0.1))}
+        return None
+
+    def g_pop(self, g):
+        return {'k': 'pop', 'i': None if g.chance(0.4) else g.pos(len(self.items))}
+
+    def g_count(self, g):
+        if self.avoid and self.dt.cls == 'other':
+            return None
+        v = self.gexisting(g)
+        if self.dt.cls == 'float' and g.chance(0.15):
+            v = jval(float('nan'))
+        return {'k': 'count', 'v': v}
+
+    def g_contains(self, g):
+        return {'k': 'contains', 'v': self.gexisting(g)}
+
+    def g_iter(self, g):
+        return {'k': 'iter', 'how': g.pick(['list', 'tuple', 'for', 'reversed'])}
+
+    def g_iter_next(self, g):
+        return {'k': 'iter_next'} if self.it is not None else ({'k': 'iter_start'} if g.chance(0.5) else None)
+
+    def g_equals(self, g):
+        d = self.dt
+        r = g.r.random()
+        cur = self.bits()
+        if r < 0.15:
+            ne = 'le' if LE else 'be'
+            match = [tc for tc in AA_CODES if aa_info(tc)[1] == d.w] or list(AA_CODES)
+            tc = g.pick(match) if g.chance(0.8) else g.pick(AA_CODES)
+            kind, w = aa_info(tc)
+            vals = []
+            if d.cls != 'other' and g.chance(0.7):
+                for x in self.vals():
+                    st, _ = call(array.array, tc, [x])
+                    if st == 'ok' and not is_nan(x):
+                        vals.append(jval(x))
+            else:
+                vals = [g.pick([0, 1, 2]) for _ in range(g.int(0, 3))]
+            if vals and g.chance(0.2):
+                vals[-1] = 3
+            return {'k': 'equals', 'other': 'aa', 'tc': tc, 'vals': vals}
+        if r < 0.2:
+            return {'k': 'equals', 'other': g.pick(['str', 'none'])}
+        r = g.r.random()
+        if r < 0.5:
+            key = d.key
+        elif r < 0.7:
+            same = [k for k in KEYS if TABLE[k].sem == d.sem and k != d.key]
+            key = g.pick(same) if same else d.key
+        else:
+            key = pick_dtype(g)
+        bits = cur
+        m = g.r.random()
+        if m < 0.3 and cur:
+            p = g.int(0, len(cur) - 1)
+            bits = cur[:p] + ('1' if cur[p] == '0' else '0') + cur[p + 1:]
+        elif m < 0.4:
+            bits = cur + g.bits(g.int(1, 3))
+        elif m < 0.5 and cur:
+            bits = cur[:-1]
+        return {'k': 'equals', 'other': 'array', 'dt2': key, 'bin': bits}
+
+    def g_copy(self, g):
+        how = g.wpick([('copy', 3), ('slice', 3), ('deepcopy', 1)])
+        if how == 'deepcopy' and self.avoid:
+            how = 'copy'
+        return {'k': 'copy', 'how': how}
+
+    def g_set_dtype(self, g):
+        if g.chance(0.06):
+            return {'k': 'set_dtype', 'dt2': g.pick(INVALID_DTYPES)}
+        key = pick_dtype(g)
+        via = 'obj' if (key[0] not in '<>=@' and g.chance(0.3)) else 'str'
+        return {'k': 'set_dtype', 'dt2': key, 'via': via}
+
+    def g_set_data(self, g):
+        w = self.dt.w
+        n = len(self.items)
+        mode = g.wpick([('assign', 2), ('append', 3), ('trunc', 3)])
+        if n > 10:
+            return {'k': 'set_data', 'mode': 'assign', 'bin': g.bits(g.int(0, 4) * w + (g.int(0, w - 1) if g.chance(0.3) else 0))}
+        if mode == 'assign':
+            return {'k': 'set_data', 'mode': mode, 'bin': g.bits(g.int(0, 6) * w + (g.int(0, w - 1) if g.chance(0.4) else 0))}
+        if mode == 'append':
+            return {'k': 'set_data', 'mode': mode, 'bin': g.bits(g.pick([1, w - 1, w, w + 1, len(self.trail) and (w - len(self.trail)) or 1]) or 1)}
+        return {'k': 'set_data', 'mode': mode, 'bin': '0' * g.pick([1, len(self.trail) or 1, w, w + 1])}
+
+    def gscalar(self, g, opname):
+        d = self.dt
+        w = d.w
+        if opname in ('lshift', 'rshift'):
+            return g.pick([0, 1, 2, w - 1, w, w + 1, -1, 3])
+        if d.cls == 'int':
+            return g.pick([0, 1, 2, 3, -1, -2, 5, 7, 10, 2 ** w - 1, 2 ** (w - 1), -2 ** (w - 1), 255, w,
+                           jval(0.5), jval(1.5), jval(2.0), jval(-0.0), True] + ([jval(float('nan')), jval(float('inf'))] if g.chance(0.1) else []))
+        if d.cls == 'float':
+            return g.pick([0, 1, 2, -1, 3, jval(0.5), jval(-1.5), jval(2.0), jval(1e-3), jval(1e4), jval(0.0), jval(-0.0),
+                           jval(float('inf')), jval(float('nan')), 10])
+        if opname in ('eq', 'ne'):
+            return self.gexisting(g)
+        if opname == 'add' and d.kind in ('hex', 'bin', 'oct'):
+            return g.pick(['', '0', 1])
+        return g.pick([0, 1, 2, -1, jval(1.0)])
+
+    def garray_rhs(self, g, opname):
+        d = self.dt
+        n = len(self.items)
+        r = g.r.random()
+        if opname in ('lshift', 'rshift'):
+            key = g.pick(['uint1', 'uint2', 'uint3', 'uint4', 'int3', 'uint5', 'bool', 'float16'])
+        elif r < 0.2:
+            key = d.key
+        elif r < 0.88:
+            key = pick_dtype(g, numeric=True)
+        else:
+            key = pick_dtype(g, numeric=False)
+        if self.avoid and opname in ('eq', 'ne') and TABLE[key].ident != d.ident:
+            key = d.key
+        if g.chance(0.05):
+            return {'arr': {'self': True}}
+        m = n if g.chance(0.88) else g.pick([max(n - 1, 0), n + 1])
+        d2 = TABLE[key]
+        if d2.cls == 'int' and opname in ('truediv', 'floordiv', 'mod') and g.chance(0.7):
+            # mostly non-zero divisors so that the quotient path is reached
+            bits = ''.join((format(g.r.getrandbits(d2.w) | 1, f'0{d2.w}b') if d2.sem[1] != 'le' else g.bits(d2.w - 8) + format(g.r.getrandbits(8) | 1, '08b')) for _ in range(m))
+        else:
+            bits = g.bits(m * d2.w)
+        if d2.w > 1 and g.chance(0.08):
+            bits += g.bits(g.int(1, d2.w - 1))          # the operand has trailing bits of its own
+        return {'arr': {'dt': key, 'bin': bits}}
+
+    def g_op(self, g, inplace=False):
+        k = 'iop' if inplace else 'op'
+        r = g.r.random()
+        w = self.dt.w
+        if r < 0.16:
+            vb = g.bits(w) if g.chance(0.9) else g.bits(g.pick([w + 1, max(w - 1, 0), 0]))
+            return {'k': k, 'op': g.pick(BITWISE), 'rhs': {'bw': vb, 'as': g.pick(['bits', 'str', 'bytes'])}}
+        ops = ARITH if inplace else (ARITH + CMP if r < 0.75 else CMP)
+        opname = g.pick(ops)
+        if opname in ('eq', 'ne') and g.chance(0.15) and not inplace:
+            n = len(self.items)
+            m = n if g.chance(0.8) else n + 1
+            return {'k': k, 'op': opname, 'rhs': {'list': [self.gexisting(g) for _ in range(m)]}}
+        if g.chance(0.4):
+            return {'k': k, 'op': opname, 'rhs': self.garray_rhs(g, opname)}
+        return {'k': k, 'op': opname, 'rhs': {'s': self.gscalar(g, opname)}}
+
+    def g_iop(self, g):
+        return self.g_op(g, inplace=True)
+
+    def g_iop_unfit(self, g):
+        """An in-place operator whose result does not fit at a chosen position (first / middle / last item)."""
+        d = self.dt
+        n = len(self.items)
+        if n == 0:
+            return None
+        t = g.pick([0, n // 2, n - 1])
+        if d.kind in ('u', 'i'):
+            hi = 2 ** d.w - 1 if d.kind == 'u' else 2 ** (d.w - 1) - 1
+            lo = 0 if d.kind == 'u' else -2 ** (d.w - 1)
+            if g.chance(0.5):
+                self.queue.append({'k': 'iop_unfit', 'op': 'add', 'rhs': {'s': 1}})
+                return {'k': 'set', 'i': t, 'v': hi}
+            self.queue.append({'k': 'iop_unfit', 'op': 'sub', 'rhs': {'s': 1}})
+            return {'k': 'set', 'i': t, 'v': lo}
+        if d.kind == 'bool':
+            self.queue.append({'k': 'iop_unfit', 'op': 'add', 'rhs': {'s': 1}})
+            return {'k': 'set', 'i': t, 'v': True}
+        if d.cls == 'float':
+            return {'k': 'iop_unfit', 'op': g.pick(['truediv', 'floordiv', 'mod']), 'rhs': {'s': g.pick([0, jval(0.0)])}}
+        return {'k': 'iop_unfit', 'op': g.pick(['add', 'mul', 'sub']), 'rhs': {'s': g.pick([2, 1, 0])}}
+
+    def g_rop(self, g):
+        w = self.dt.w
+        if g.chance(0.2):
+            return {'k': 'rop', 'op': g.pick(BITWISE), 'rhs': {'bw': g.bits(w), 'as': g.pick(['str', 'bytes'])}}
+        opname = g.pick(['add', 'sub', 'sub', 'mul'])
+        if opname == 'sub' and self.avoid and self._scalar_trig('sub', 0, reflected=True) != self.tb():
+            opname = 'add'
+        s = self.gscalar(g, opname)
+        if isinstance(s, str):
+            s = 1
+        return {'k': 'rop', 'op': opname, 'rhs': {'s': s}}
+
+    def g_unary(self, g):
+        return {'k': 'unary', 'op': g.pick(['neg', 'abs'])}
+
+    def g_tofile(self, g):
+        return {'k': 'tofile', 'via': g.pick(['file', 'bytesio', 'simwriter'])}
+
+    def g_fromfile(self, g):
+        w = self.dt.w
+        items = g.int(0, 4)
+        nbytes = (items * w + 7) // 8 + g.pick([0, 0, 1])
+        data = bytes(g.r.getrandbits(8) for _ in range(nbytes))
+        avail = nbytes * 8 // w
+        n = g.pick([None, 0, 1, avail, max(avail - 1, 0), avail + 1, avail + 3])
+        return {'k': 'fromfile', 'data': data.hex(), 'n': n, 'via': g.pick(['file', 'bytesio'])}
+
+    def g_astype(self, g):
+        return {'k': 'astype', 'dt2': pick_dtype(g, numeric=True if (self.dt.cls != 'other' and g.chance(0.8)) else None)}
+
+
+QUICK_RUNS = 55000
+THOROUGH_RUNS = 750000
+
+
+# ---------------------------------------------------------------------------------------------------------
+# harness-free reproduction script for a (minimised) event list
+# ---------------------------------------------------------------------------------------------------------
+
+def _pv(j):
+    if isinstance(j, dict):
+        if 'f' in j:
+            return f"float({j['f']!r})"
+        if 'b' in j:
+            return repr(bytes.fromhex(j['b']))
+        if 'bits' in j:
+            return f"Bits(bin={j['bits']!r})"
+        if 'bs' in j:
+            return repr('0b' + j['bs'])
+    return repr(j)
+
+
+def _script_line(ev, n):
+    k = ev.get('k')
+    sl = lambda: ':'.join('' if ev.get(x) is None else str(ev.get(x)) for x in 'abc')
+    vals = lambda: '[' + ', '.join(_pv(j) for j in ev.get('vals', [])) + ']'
+    other = lambda d: f"_arr({d.get('dt2', d.get('dt'))!r}, {d.get('bin', '')!r})"
+    if k == 'get':
+        return f"print(a[{ev.get('i')}])"
+    if k == 'getslice':
+        return f"print(a[{sl()}])"
+    if k == 'set':
+        return f"a[{ev.get('i')}] = {_pv(ev.get('v'))}"
+    if k in ('setslice', 'setslice_f'):
+        if ev.get('src') == 'array' and k == 'setslice':
+            return f"a[{sl()}] = {other(ev)}"
+        if k == 'setslice_f':
+            return f"a[{sl()}] = _dies({vals()}, {ev.get('fail_at')})"
+        return f"a[{sl()}] = {vals()}"
+    if k == 'del':
+        return f"del a[{ev.get('i')}]"
+    if k == 'delslice':
+        return f"del a[{sl()}]"
+    if k == 'append':
+        return f"a.append({_pv(ev.get('v'))})"
+    if k == 'insert':
+        return f"a.insert({ev.get('i')}, {_pv(ev.get('v'))})"
+    if k == 'pop':
+        return "print(a.pop())" if ev.get('i') is None else f"print(a.pop({ev.get('i')}))"
+    if k in ('reverse', 'byteswap', 'tolist', 'tobytes'):
+        return f"print(a.{k}())"
+    if k == 'count':
+        return f"print(a.count({_pv(ev.get('v'))}))"
+    if k == 'contains':
+        return f"print({_pv(ev.get('v'))} in a)"
+    if k in ('extend', 'extend_f'):
+        src = ev.get('src', 'list')
+        if k == 'extend_f':
+            return f"a.extend(_dies({vals()}, {ev.get('fail_at')}))"
+        if src == 'self':
+            return "a.extend(a)"
+        if src == 'array':
+            return f"a.extend({other(ev)})"
+        if src == 'arrayarray':
+            return f"a.extend(array.array({ev.get('tc')!r}, {vals()}))"
+        return f"a.extend({vals()})"
+    if k == 'equals':
+        if ev.get('other', 'array') == 'array':
+            return f"print(a.equals({other(ev)}))"
+        if ev.get('other') == 'aa':
+            return f"print(a.equals(array.array({ev.get('tc')!r}, {vals()})))"
+        return "print(a.equals('hello'))"
+    if k == 'copy':
+        return {'slice': 'c = a[:]', 'deepcopy': 'c = copy.deepcopy(a)'}.get(ev.get('how'), 'c = copy.copy(a)') + "; c.data.invert(); print(c)"
+    if k == 'set_dtype':
+        return f"a.dtype = {ev.get('dt2')!r}"
+    if k == 'set_data':
+        m, b = ev.get('mode', 'assign'), ev.get('bin', '')
+        return {'append': f"a.data += Bits(bin={b!r})", 'trunc': f"del a.data[len(a.data) - min({len(b)}, len(a.data)):]"}.get(m, f"a.data = BitArray(bin={b!r})")
+    if k == 'astype':
+        return f"print(a.astype({ev.get('dt2')!r}))"
+    if k == 'fromfile':
+        nn = '' if ev.get('n') is None else f", {ev.get('n')}"
+        return f"a.fromfile(io.BytesIO(bytes.fromhex({ev.get('data', '')!r})){nn})"
+    if k == 'tofile':
+        return "f = io.BytesIO(); a.tofile(f); print(f.getvalue())"
+    if k == 'iter':
+        return "print(list(reversed(a)))" if ev.get('how') == 'reversed' else "print(list(a))"
+    if k == 'iter_start':
+        return "it = iter(a)"
+    if k == 'iter_next':
+        return "print(next(it))"
+    if k == 'cache_clear':
+        return "# (every lru_cache of bitstring cleared here)"
+    if k in ('op', 'iop', 'iop_unfit', 'rop'):
+        rhs = ev.get('rhs') or {}
+        op = ev.get('op')
+        sym = SYM.get(op, op)
+        if 'arr' in rhs:
+            r = 'a' if rhs['arr'].get('self') else other(rhs['arr'])
+        elif 'bw' in rhs:
+            r = repr('0b' + rhs['bw']) if (rhs.get('as') != 'bits' or k == 'rop') else f"Bits(bin={rhs['bw']!r})"
+        elif 'list' in rhs:
+            r = '[' + ', '.join(_pv(j) for j in rhs['list']) + ']'
+        else:
+            r = _pv(rhs.get('s'))
+        if k == 'rop':
+            return f"print({r} {sym} a)"
+        if k == 'op':
+            return f"print(a {sym} {r})"
+        return f"a {sym}= {r}"
+    if k == 'unary':
+        return "print(-a)" if ev.get('op') == 'neg' else "print(abs(a))"
+    if k == 'len':
+        return "print(len(a))"
+    if k == 'props':
+        return "print(a.data.bin, a.trailing_bits.bin, a.itemsize)"
+    return f"# {k}"
+
+
+def _script(self, events):
+    """Harness-free reproduction: the Array is rebuilt from the init event and every recorded call is replayed."""
+    cfg = events[0].get('cfg', {}) if events else {}
+    lines = ["import array, copy, io", "from bitstring import Array, Bits, BitArray",
+             "def _arr(dt, bits):\n    x = Array(dt); x.data = BitArray(bin=bits); return x"]
+    if any(e.get('k') in ('extend_f', 'setslice_f') for e in events[1:]):
+        lines.append("def _dies(items, k):\n    for i, x in enumerate(items):\n        if i == k: raise RuntimeError('producer died')\n        yield x\n    raise RuntimeError('producer died')")
+    lines.append(f"a = _arr({cfg.get('dt')!r}, {cfg.get('init', '')!r}); print(a)")
+    for i, ev in enumerate(events[1:]):
+        lines.append(_script_line(ev, i))
+    lines.append("print(a, a.data.bin)")
+    return '\n'.join(lines)
+
+
+EArray.script = _script
